@@ -1,7 +1,7 @@
 """Per-property check plans: which jobs to run in which tier, what coverage is required, what goes in the evidence."""
 from core import Job, NCPU
 
-SETUP_MODES = ["dbg", "rel", "off", "nostd", "asan", "miri", "tsan", "tsanrel", "mirirel"]
+SETUP_MODES = ["dbg", "rel", "off", "nostd", "asan", "miri", "tsan", "tsanrel", "mirirel", "asanrel"]
 
 MEM = ("C01",)
 
@@ -602,7 +602,11 @@ def shapes_jobs(mode, fam, seed, props, frac=1, nshards=4, extra=(), timeout=120
         if mode in ("asan", "memcheck"):
             args.append("shadow=0")
         args += fill_arg(mode, k, seed)
-        jobs.append(Job(mode, args, san_props=props, crash_props=props if crash is None else crash, timeout=timeout, bin="tvs"))
+        if mode == "asan" and k % 2 == 1:
+            mode_k = "asanrel"  # AddressSanitizer on a build without debug assertions / overflow checks
+        else:
+            mode_k = mode
+        jobs.append(Job(mode_k, args, san_props=props, crash_props=props if crash is None else crash, timeout=timeout, bin="tvs"))
     return jobs
 
 
@@ -738,11 +742,11 @@ def simple_jobs(mode, args, props, nshards=1, timeout=1200, sharded=True):
         a = list(args)
         if sharded and nshards > 1:
             a += ["shard=%d" % k, "nshards=%d" % nshards]
-        if mode in ("asan", "memcheck", "tsan", "tsanrel"):
+        if mode in ("asan", "memcheck", "tsan", "tsanrel", "asanrel"):
             a.append("shadow=0")
         sd = next((int(x[5:]) for x in a if x.startswith("seed=")), 0)
         a += fill_arg(mode, k + (1 if mode == "rel" else 0), sd)
-        jobs.append(Job(mode, a, san_props=props, crash_props=props, timeout=timeout))
+        jobs.append(Job("asanrel" if mode == "asan" and k % 2 == 1 else mode, a, san_props=props, crash_props=props, timeout=timeout))
     return jobs
 
 
@@ -793,6 +797,8 @@ def asan_faults(seed, p, extra):
     j = []
     for part in ("clone", "closure", "cmp", "drop"):
         j.append(Job("asan", ["faults", "seed=%d" % seed, "part=%s" % part, "shadow=0"] + extra, san_props=p, crash_props=p))
+    j.append(Job("asanrel", ["faults", "seed=%d" % seed, "part=iter", "shadow=0"] + extra, san_props=p, crash_props=p,
+                 env={"ASAN_OPTIONS": "detect_leaks=0:halt_on_error=1:exitcode=98"}))
     j.append(Job("asan", ["faults", "seed=%d" % seed, "part=iter", "shadow=0"] + extra, san_props=p, crash_props=p,
                  env={"ASAN_OPTIONS": "detect_leaks=0:halt_on_error=1:exitcode=98"}))
     return j
